@@ -30,7 +30,9 @@ def build_config(sc, minsucc=None):
         "function_estimators": [{"method": "mean"}, {"method": "stddev"}],
         "realization_filters": [
             {"method": "sort-objective", "options": {"sort": [0], "first": first, "last": last}},
-            {"method": "cvar-objective", "options": {"sort": [1], "percentile": 0.5}}],
+            {"method": "cvar-objective", "options": {"sort": [1], "percentile": 0.5}},
+            {"method": "cvar-constraint", "options": {"sort": 0, "percentile": 0.5}},
+            {"method": "sort-constraint", "options": {"sort": 0, "first": first, "last": last}}],
     })
 
 
